@@ -21,7 +21,17 @@ def ordering_of(B, op):
         return o["const"].get("variant")
     if o.get("kind") == "rvalue" and o["rv"]["k"] == "agg" and o["rv"].get("adt") == "core::sync::atomic::Ordering":
         return o["rv"]["variant"]
+    if o.get("kind") == "arg":
+        return ("param", o["arg"])  # chosen by the caller (`fn references(&self, order: Ordering)`): resolved at each call site
     return None
+
+
+def resolve_ordering(ordr, B, t):
+    """An ordering that is a parameter of the callee, as passed by call term t in body B."""
+    if isinstance(ordr, tuple) and ordr and ordr[0] == "param":
+        k = ordr[1] - 1
+        return ordering_of(B, t["args"][k]) if 0 <= k < len(t["args"]) else None
+    return ordr
 
 
 def is_count_place(F, pl):
